@@ -20,6 +20,7 @@ from ..gen import vtext as V
 from .c12 import Src, comment_texts, hx, unhx
 
 PID = "C13"
+KNOWN_IFDEF = "line-coverage-unanchored-ifdef-guard"
 
 MANIFEST = {
     "category": "other",
@@ -88,7 +89,8 @@ def lines_of(text):
 
 
 def src_starts(text, lx):
-    """set of (line0, col0) where a token or a comment starts in the Veryl source"""
+    """(set of (line0, col0) where a token or a comment starts in the Veryl source,
+    subset of those where an identifier token starts)"""
     src = text if text.endswith("\n") else text + "\n"
     b = src.encode()
     S = Src(b)
@@ -97,6 +99,7 @@ def src_starts(text, lx):
     for ch in src:
         boff.append(boff[-1] + len(ch.encode()))
     out = set()
+    idents = set()
     for (k, s, st, md) in lx.lex(src):
         if k == "CommentsTerm":
             base = boff[st]
@@ -106,7 +109,9 @@ def src_starts(text, lx):
         else:
             l, c = S.line_col(boff[st])
             out.add((l - 1, c - 1))
-    return out
+            if k in ("IdentifierTerm", "DollarIdentifierTerm"):
+                idents.add((l - 1, c - 1))
+    return out, idents
 
 
 _IDENT = re.compile(r"[A-Za-z_][A-Za-z0-9_$]*")
@@ -157,7 +162,7 @@ def judge(text, sv, mapjs, lx):
     bad = []
     sv_lines = lines_of(sv)
     try:
-        starts = src_starts(text, lx)
+        starts, ident_starts = src_starts(text, lx)
     except V.LexError as e:
         return [("machinery-lexer", "derived lexer cannot cut the source: %s" % e)], ents
     prev = None
@@ -170,7 +175,7 @@ def judge(text, sv, mapjs, lx):
             got = sv_lines[dl][dc:dc + len(first)] if dl < len(sv_lines) else "<no such line>"
             bad.append(("dst-name", "entry for %r points at output %d:%d where the text is %r" % (name[:30], dl + 1, dc + 1, got[:30])))
             break
-        if (sl, sc) not in starts:
+        if name != "" and (sl, sc) not in starts:
             bad.append(("src-start", "entry for %r (output %d:%d) points at source %d:%d where no token or comment starts" % (
                 name[:30], dl + 1, dc + 1, sl + 1, sc + 1)))
             break
@@ -179,11 +184,19 @@ def judge(text, sv, mapjs, lx):
             break
         prev = (dl, dc)
     if not bad:
-        mapped = set(n for (_, _, _, _, n) in ents if n and _IDENT.fullmatch(n))
-        have = set(dl for (dl, _, _, _, _) in ents)
+        # mapped identifiers: names of entries that point at an identifier token of the source
+        mapped = set(n for (_, _, sl, sc, n) in ents if n and _IDENT.fullmatch(n) and (sl, sc) in ident_starts)
+        have = set()
+        for (dl, _, _, _, n) in ents:
+            # a multi-line text (block comment, embed body) covers all its lines
+            have.update(range(dl, dl + (n or "").count("\n") + 1))
         for ln, words in enumerate(sv_code_words(sv)):
             hit = words & mapped
             if hit and ln not in have:
+                if re.fullmatch(r"\s*`(ifdef|ifndef|elsif)\s+[A-Za-z_][A-Za-z0-9_$]*\s*", sv_lines[ln]):
+                    bad.append((KNOWN_IFDEF, "output line %d %r (a preprocessor guard the emitter writes for a duplicated / expanded item) holds the "
+                                "mapped identifier %r but has no entry" % (ln + 1, sv_lines[ln].strip(), sorted(hit)[0])))
+                    break
                 bad.append(("line-coverage", "output line %d holds the mapped identifier %r but has no entry: %r" % (
                     ln + 1, sorted(hit)[0], sv_lines[ln][:80])))
                 break
@@ -219,6 +232,10 @@ def parse_out(ln):
         return ("PANIC", ln)
     if t[0] == "ERR":
         return ("ERR",)
+    if t[0] == "APANIC":
+        return ("APANIC",)
+    if t[0] == "EPANIC":
+        return ("EPANIC", int(t[1]))
     if t[0] != "OK":
         return ("PANIC", ln)
     return {"nerr": int(t[1]), "sv": unhx(t[2]).decode("utf8"), "map": unhx(t[3]).decode("utf8")}
@@ -321,8 +338,8 @@ def run(tier, seed, replay):
             print("replay: %d entries, analyzer errors %d" % (len(ents), r["nerr"]))
             for k, w in bad:
                 res.violation(k, w, rp)
-        elif r[0] == "PANIC":
-            res.violation("emit-panic", "analyzer/emitter panicked: " + r[1][:200], rp)
+        elif r[0] == "EPANIC" and r[1] == 0:
+            res.violation("emit-panic", "the emitter panicked on a design without analyzer errors", rp)
         return res.finish()
 
     rng = random.Random(seed * 7919 + 13)
@@ -337,12 +354,21 @@ def run(tier, seed, replay):
         if not isinstance(r, dict):
             if r[0] == "ERR":
                 n_err += 1
+            elif r[0] == "APANIC":
+                res.count("analyzer_panics_outside_this_property")
+            elif r[0] == "EPANIC" and r[1] > 0:
+                res.count("emitter_panics_on_designs_with_analyzer_errors")
+            elif r[0] == "EPANIC":
+                fails.append((i, "emit-panic", "the emitter panicked on %s, a design without analyzer errors" % label))
             else:
-                fails.append((i, "emit-panic", "analyzer/emitter panicked on %s: %s" % (label, r[1][:200])))
+                fails.append((i, "emit-panic", "harness crashed on %s: %s" % (label, r[1][:200])))
             continue
         n_ok += 1
         bad, ents = judge(text, r["sv"], r["map"], lx)
         n_entries += len(ents)
+        # anchors that fall outside the hypotheses of the Coq theorems (wf_pos: non-empty, not ending in a blank)
+        res.count("entries_with_empty_name_(start_token)", sum(1 for e in ents if e[4] == ""))
+        res.count("entries_whose_name_ends_in_a_blank", sum(1 for e in ents if e[4] and e[4].endswith(" ")))
         builds = r["nerr"] == 0
         n_clean += builds
         res.hist("options_histogram", "va=%s strip=%s nl=%s" % (opts[0], opts[4], opts[3]))
